@@ -29,9 +29,14 @@ FR_MORE = ["g_sp", "h_hdrs_noblank", "s_host_na", "gp_view_na", "g_q_na", "h_hdr
 SELS = ["", "/", "/d", "/d/", "/gm", "/umn", "/about.txt", "/big.txt", "/page.html", "/t.txt.gz", "/run.sh", "/p.pyg",
         "/m.mbox", "/md", "/z.zip", "/z.zip/sub", "/z.zip/sub/inner.txt", "/z.zip/nope", "/nofile", "/a~b", "/a%00b",
         "/%zz", "/%2", "/x%0d%0ay", "/x\ry", "/../about.txt", "/d//a.txt", "/URL:http://x.org/", "/1/about.txt",
-        "/about.txt/x", "/d/.cache.pygopherd.dir"]
-SELS_MORE = ["/caf@.txt", "/about.txt~", "/x%0Ay", "/x%0dy", "/a%7Cb", "/d%2fa.txt", "/d/%2e%2e/about.txt", "/umn/f.txt", "/gm/x.txt",
-             "/md/new", "/z.zip/top.txt", "/__pycache__", "/wapx"]
+        "/about.txt/x", "/d/.cache.pygopherd.dir",
+        # URL-syntax metacharacters in the request target (authority marker, scheme, unbalanced bracket)
+        "//[", "http://[::1/x"]
+SELS_MORE = ["/caf*.txt", "/about.txt~", "/x%0Ay", "/x%0dy", "/a%7Cb", "/d%2fa.txt", "/d/%2e%2e/about.txt", "/umn/f.txt", "/gm/x.txt",
+             "/md/new", "/z.zip/top.txt", "/__pycache__", "/wapx",
+             # ... the rest of the URL-syntax class: userinfo, fragment, parameters, port-like suffixes, brackets
+             "/x@y", "//user@host/x", "/x#frag", "/x;p=1", "/x:80", "//host:80/x", "/]", "/[::1]/x", "[::1/x",
+             "http://h/x"]
 ARG_FRAMES = ["g", "gp_plus", "h_get", "gem", "s"]
 ARG_FRAMES_MORE = ["gp_info", "h_head", "w_get", "tg"]
 ARG_SELS = ["/m.mbox", "/md", "/nofile", "/about.txt", "/d"]
